@@ -16,6 +16,8 @@ try:
     rc = subprocess.run('git -C /repo apply ' + patch, shell=True).returncode
     if rc != 0:     # /repo has moved on since the change was made (later fix: commits): merge it in, keep the index clean
         rc = subprocess.run('git -C /repo apply --3way %s && git -C /repo reset -q' % patch, shell=True).returncode
+        if rc != 0:
+            subprocess.run('git -C /repo reset -q --hard HEAD', shell=True)     # a conflicted merge must not stay behind
     assert rc == 0, 'patch does not apply'
     p = subprocess.run('VERIF_SEEDRUN=1 ./check %s %s' % (prop, tier), shell=True, cwd='/verif', stdout=subprocess.PIPE, stderr=subprocess.STDOUT)
     out = p.stdout.decode(errors='replace')
